@@ -124,7 +124,12 @@ impl Script {
 /// build a seed; a scripted step that fails (for instance because the tree under test is broken)
 /// makes the seed unavailable instead of aborting the run
 pub fn try_seed(f: impl FnOnce() -> Sim) -> Option<Sim> {
-    mwsim::world::guarded(f).ok()
+    mwsim::world::guarded(f).ok().map(|mut s| {
+        // the menus bound further activity relative to what the scripted prefix already used
+        s.g.seed_batches = (s.m.batches.len() as u64).saturating_sub(2);
+        s.g.seed_seq = s.w.ibc.next_seq.saturating_sub(6);
+        s
+    })
 }
 
 /// due time of the pending batch according to the reference model
@@ -195,4 +200,97 @@ pub fn seed_full_exit(k: &K) -> Sim {
 /// admin resumed with staked > 0 and no LST: the next stake sweeps the ownerless stake to fees
 pub fn seed_sweep(k: &K) -> Sim {
     Script::new(k).run(resume(&adm(), 500, 0, 0)).done()
+}
+
+// ---- long scripted seeds: deep histories are cheap to script and put the search far from the initial state ----
+
+/// ten complete batch cycles (ids cross 9 -> 10), alternating exact / short / long deliveries, with
+/// some requests withdrawn and some left open; the 11th batch is pending with one request
+pub fn seed_ten_batches(k: &K) -> Sim {
+    let mut sc = Script::resumed(k);
+    sc = sc.run(stake(&u(1), 5_000)).run(stake(&u(2), 3_000)).run(stake(&u(3), 1_000));
+    for i in 1..=10u64 {
+        sc = sc.with(|s| unstake(s, &u(1), 100 + i as u128)).with(|s| unstake(s, &u(2), 50));
+        if i % 3 == 0 {
+            sc = sc.with(|s| unstake(s, &u(3), 7)).with(|s| unstake(s, &u(1), 1));
+        }
+        sc = sc.with(|s| advance(pending_due(s) + (i % 2))).run(submit(&p20("x")));
+        sc = sc.with(|s| advance(s.m.batches[&i].due));
+        sc = sc.with(|s| {
+            let e = s.m.batches[&i].expected.unwrap();
+            let amt = match i % 3 {
+                0 => e.saturating_sub(3).max(1),
+                1 => e,
+                _ => e + 2,
+            };
+            deliver(s, i, amt)
+        });
+        if i % 2 == 1 {
+            sc = sc.run(withdraw(&u(1), i));
+        }
+        if i % 4 == 0 {
+            sc = sc.run(withdraw(&u(2), i));
+        }
+        if i == 5 {
+            sc = sc.with(|s| rewards(s, 333));
+        }
+    }
+    sc = sc.with(|s| unstake(s, &u(2), 20));
+    sc.done()
+}
+
+/// many small rewards whose fee remainders accumulate (and two fee-configuration changes on the way)
+pub fn seed_many_rewards(k: &K) -> Sim {
+    let mut sc = Script::resumed(k).run(stake(&u(1), 1_000)).run(stake(&u(2), 777));
+    for r in [7u128, 13, 99, 101, 15, 15, 9, 10_001, 3, 19, 19, 57] {
+        sc = sc.with(move |s| rewards(s, r));
+    }
+    sc.done()
+}
+
+/// amounts in the middle of the 128-bit range (2^64 .. 2^100), rate away from 1, two open requests
+pub fn seed_mid_amounts(k: &K) -> Sim {
+    let mut sc = Script::resumed(k);
+    let big: u128 = 1 << 100;
+    for i in 1..=3 {
+        sc.s.fund(&u(i), big);
+    }
+    let a1: u128 = (1 << 70) + 7;
+    let a2: u128 = (1 << 80) + 11;
+    let a3: u128 = (1 << 64) + 3;
+    sc = sc.run(stake(&u(1), a1)).run(stake(&u(2), a2)).run(stake(&u(3), a3));
+    sc = sc.with(|s| rewards(s, (1 << 66) + 5));
+    sc = sc.with(|s| unstake(s, &u(1), (1 << 69) + 1)).with(|s| unstake(s, &u(2), (1 << 79) + 13));
+    sc.with(|s| advance(pending_due(s))).done()
+}
+
+/// mid-range amounts carried to a received batch
+pub fn seed_mid_received(k: &K) -> Sim {
+    let mut s = seed_mid_amounts(k);
+    assert!(s.apply(&submit(&p20("x"))).out.ok);
+    let due = s.m.batches[&1].due;
+    s.apply(&advance(due));
+    let exp = s.m.batches[&1].expected.unwrap();
+    let a = deliver(&s, 1, exp - 12_345);
+    assert!(s.apply(&a).out.ok);
+    s
+}
+
+/// four requesters in one due batch (the fourth is a 32-byte contract-like account staking for itself is
+/// not possible, so a fourth 20-byte user)
+pub fn seed_four_requesters(k: &K) -> Sim {
+    let mut sc = Script::resumed(k);
+    sc.s.fund(&p20("u4"), 100_000);
+    sc = sc.run(stake(&u(1), 100)).run(stake(&u(2), 60)).run(stake(&u(3), 45)).run(stake(&p20("u4"), 33));
+    sc = sc.with(|s| rewards(s, 50));
+    sc = sc.with(|s| unstake(s, &u(1), 10)).with(|s| unstake(s, &u(2), 7)).with(|s| unstake(s, &u(3), 1)).with(|s| unstake(s, &p20("u4"), 9));
+    sc.with(|s| advance(pending_due(s))).done()
+}
+
+/// block time beyond 2^32 seconds and deadlines more than 2^32 seconds apart
+pub fn seed_far_future(k: &K) -> Sim {
+    let mut sc = Script::resumed(k).run(stake(&u(1), 100)).run(stake(&u(2), 60));
+    sc = sc.with(|s| unstake(s, &u(1), 30));
+    sc = sc.with(|s| advance(s.w.time + (1u64 << 33)));
+    sc.done()
 }
